@@ -16,6 +16,7 @@
 package main
 
 import (
+	"crypto/sha256"
 	"encoding/hex"
 	"encoding/json"
 	"fmt"
@@ -23,6 +24,7 @@ import (
 	"math/big"
 	"os"
 	"regexp"
+	"runtime"
 	"runtime/pprof"
 	"sort"
 	"strconv"
@@ -1313,10 +1315,15 @@ func nontrivial(m *refminers.Model) bool {
 // search
 
 type bfsNode struct {
-	hist     []Op
-	open     int
-	dump     map[string]string
-	sealDump map[string]string
+	hist []Op
+	open int
+}
+
+func keyHash(k string) [16]byte {
+	h := sha256.Sum256([]byte(k))
+	var o [16]byte
+	copy(o[:], h[:16])
+	return o
 }
 
 var reported = map[string]int{}
@@ -1394,6 +1401,19 @@ func run(c *fw.Ctx) {
 		defer pprof.StopCPUProfile()
 	}
 	setup()
+	if c.Shard == 0 {
+		defer func() {
+			c.Note("worker0_peak_rss_mb", peakRSSMB())
+			if os.Getenv("C20_MEM") != "" {
+				var ms runtime.MemStats
+				runtime.ReadMemStats(&ms)
+				c.Note("mem", fmt.Sprintf("heapAlloc=%dMB heapInuse=%dMB heapSys=%dMB sys=%dMB numGC=%d", ms.HeapAlloc>>20, ms.HeapInuse>>20, ms.HeapSys>>20, ms.Sys>>20, ms.NumGC))
+				f, _ := os.Create(os.Getenv("C20_MEM"))
+				pprof.WriteHeapProfile(f)
+				f.Close()
+			}
+		}()
+	}
 	d1, d2 := 3, 4
 	if c.Thorough() {
 		d1, d2 = 4, 5
@@ -1415,6 +1435,20 @@ func run(c *fw.Ctx) {
 	}
 }
 
+func peakRSSMB() int {
+	b, _ := os.ReadFile("/proc/self/status")
+	for _, l := range strings.Split(string(b), "\n") {
+		if strings.HasPrefix(l, "VmHWM:") {
+			f := strings.Fields(l)
+			if len(f) >= 2 {
+				kb, _ := strconv.Atoi(f[1])
+				return kb / 1024
+			}
+		}
+	}
+	return 0
+}
+
 // bfs explores all histories over ops to the given depth; evidence is counted for levels
 // >= countFrom.  It returns false when the time cap stopped it.
 func bfs(c *fw.Ctx, phase string, ops []Op, depth int, countFrom int) bool {
@@ -1423,14 +1457,17 @@ func bfs(c *fw.Ctx, phase string, ops []Op, depth int, countFrom int) bool {
 		report(c, nil, -1, root, nil, nil)
 		c.State(1)
 	}
-	visited := map[string]bool{root.key: true}
-	frontier := []*bfsNode{{hist: nil, open: -1, dump: root.dump, sealDump: root.sealDump}}
+	// memory: the visited set keeps 128-bit hashes of the state keys, a frontier node keeps
+	// only its history (its dumps are recomputed by one more execution when it is expanded)
+	visited := map[[16]byte]struct{}{keyHash(root.key): {}}
+	frontier := []*bfsNode{{hist: nil, open: -1}}
 	var caseIdx int64
 	for d := 1; d <= depth; d++ {
 		var nextF []*bfsNode
 		// level 1 is computed by every worker and counted once
 		count := (d > 1 || c.Shard == 0) && d >= countFrom
 		for _, n := range frontier {
+			var ndump, nseal map[string]string
 			for _, op := range ops {
 				// packings of the successor: same packing as the parent, and (for a closed
 				// parent) the successor opening the shared block
@@ -1450,8 +1487,12 @@ func bfs(c *fw.Ctx, phase string, ops []Op, depth int, countFrom int) bool {
 						c.Cap(fmt.Sprintf("time: %s, depth %d not finished", phase, d))
 						return false
 					}
+					if ndump == nil {
+						pr := runNode(n.hist, n.open, nil, nil)
+						ndump, nseal = pr.dump, pr.sealDump
+					}
 					hist := append(append([]Op{}, n.hist...), op)
-					res := runNode(hist, open, n.dump, n.sealDump)
+					res := runNode(hist, open, ndump, nseal)
 					if caseIdx%1000 == 0 {
 						trimLogs()
 					}
@@ -1459,7 +1500,7 @@ func bfs(c *fw.Ctx, phase string, ops []Op, depth int, countFrom int) bool {
 						continue
 					}
 					if d > 1 || c.Shard == 0 {
-						report(c, hist, open, res, n.dump, n.sealDump)
+						report(c, hist, open, res, ndump, nseal)
 					}
 					if count {
 						c.Eval(1)
@@ -1471,10 +1512,11 @@ func bfs(c *fw.Ctx, phase string, ops []Op, depth int, countFrom int) bool {
 							c.Sample(map[string]string{"history": histString(hist, open), "outcome": res.outcome})
 						}
 					}
-					if res.diverged || visited[res.key] {
+					kh := keyHash(res.key)
+					if _, ok := visited[kh]; ok || res.diverged {
 						continue
 					}
-					visited[res.key] = true
+					visited[kh] = struct{}{}
 					if count {
 						c.State(1)
 						if res.nontriv {
@@ -1482,7 +1524,7 @@ func bfs(c *fw.Ctx, phase string, ops []Op, depth int, countFrom int) bool {
 						}
 					}
 					if d < depth {
-						nextF = append(nextF, &bfsNode{hist: hist, open: open, dump: res.dump, sealDump: res.sealDump})
+						nextF = append(nextF, &bfsNode{hist: hist, open: open})
 					}
 				}
 			}
@@ -1541,7 +1583,7 @@ func main() {
 			if tier == "thorough" {
 				return 17 * time.Minute
 			}
-			return 70 * time.Second
+			return 60 * time.Second
 		},
 	})
 }
